@@ -91,6 +91,7 @@ def consts(cfg, which, tracefile=None):
         for k in ("MaxTicks", "MaxLoss", "MaxDup", "MaxFlight", "MaxInject", "MaxRestart", "MaxRenom", "MaxTime"):
             d[k] = str(m[k])
         d["MaxData"] = str(m.get("MaxData", 0))
+        d["BufLimit"], d["PLen"], d["MaxPause"] = str(m.get("BufLimit", 6)), "1", str(m.get("MaxPause", 0))
         d["MaxClose"] = str(m.get("MaxClose", 0))
         d["Steps"] = "{" + ", ".join(map(str, m["Steps"])) + "}"
     else:
@@ -99,6 +100,7 @@ def consts(cfg, which, tracefile=None):
             d[k] = "100000"
         d["MaxTime"] = "1000000000"
         d["MaxData"] = "100000"
+        d["BufLimit"], d["PLen"], d["MaxPause"] = "1000000", "1", "1"     # the code's maxBufferSize
         d["MaxClose"] = "1"
         d["Steps"] = "{}"
     for k in ("D", "F", "K", "H"):
